@@ -2,6 +2,7 @@
 From LV Require Import Base FS FSFacts LayerShared LayerSharedFacts LayerSharedGone LayerSharedTotal.
 From LV Require Import ImpPrims ImpTypes.
 From LVGen Require Import GenLayerShared GenLayerSharedImp.
+From LV Require LayerSbomsFacts ReadLayerFacts.
 
 Theorem c11_tables :
   rdr_checks_symlink = true /\ delete_layer_removes_sboms = true /\
@@ -214,3 +215,41 @@ Proof.
   split; [eexists; reflexivity|].
   eexists. split; [vm_compute; reflexivity|]. split; reflexivity.
 Qed.
+
+(* ---- shared::read_layer (behind every cached / uncached layer request and the trait API's
+   handle_layer), regenerated statement by statement from the source (GenLayerSharedImp.gen_read_layer,
+   result monad with state-reading conditions).  Whatever the layers directory holds, read_layer does
+   one of three things to it: nothing; remove the orphaned <name>.toml ENTRY; create an empty regular
+   file where the path held no entry at all. *)
+Theorem c11_read_layer_effect :
+  forall (A : Type) (parse : bytes -> option A) layers n,
+    LV.LayerSharedFacts.valid_path (LV.ReadLayerFacts.toml_path layers n) ->
+    forall s s' r,
+      LV.LayerSbomsFacts.dirs_to s layers ->
+      gen_read_layer parse layers n s = (s', r) ->
+      s' = s \/ s' = pdel (LV.ReadLayerFacts.toml_path layers n) s \/
+      (pget (LV.ReadLayerFacts.toml_path layers n) s = None /\
+       exists m, s' = pset (LV.ReadLayerFacts.toml_path layers n) (File m (Raw [])) s).
+Proof. intros A parse layers n V. exact (LV.ReadLayerFacts.read_layer_effect parse layers n V). Qed.
+Print Assumptions c11_read_layer_effect.
+
+(* finding F10 as a theorem: a symbolic link at <layers>/<name>.toml, dangling or not, is never
+   written through -- the file it names outside the layer is not created or changed *)
+Theorem c11_read_layer_never_writes_through_link :
+  forall (A : Type) (parse : bytes -> option A) layers n,
+    LV.LayerSharedFacts.valid_path (LV.ReadLayerFacts.toml_path layers n) ->
+    forall s s' r t,
+      LV.LayerSbomsFacts.dirs_to s layers ->
+      pget (LV.ReadLayerFacts.toml_path layers n) s = Some (Link t) ->
+      gen_read_layer parse layers n s = (s', r) ->
+      s' = s \/ s' = pdel (LV.ReadLayerFacts.toml_path layers n) s.
+Proof. intros A parse layers n V. exact (LV.ReadLayerFacts.read_layer_never_writes_through_link parse layers n V). Qed.
+Print Assumptions c11_read_layer_never_writes_through_link.
+
+(* ... which the test before e7f8bb8 (`!path.exists()`) did not satisfy: the witness *)
+Theorem c11_read_layer_legacy_refuted :
+  pget [[111; 117; 116]] LV.ReadLayerFacts.f10_fs = None /\
+  pget [[111; 117; 116]] (fst (LV.ReadLayerFacts.read_layer_legacy (fun _ => Some tt) [[108]] [120] LV.ReadLayerFacts.f10_fs))
+    = Some (File 420 (Raw [])).
+Proof. exact LV.ReadLayerFacts.read_layer_legacy_writes_through. Qed.
+Print Assumptions c11_read_layer_legacy_refuted.
